@@ -38,7 +38,7 @@ def budget(tier):
 def _case(draw):
     r = draw(gen.recipe("xml"))
     # subtype prov:type values, as QualifiedName and as plain string (must not be folded)
-    extra = draw(st.lists(st.tuples(st.integers(0, 30), st.sampled_from(SUBTYPES), st.sampled_from(["qn", "str", "lit", "uri"])), max_size=2))
+    extra = draw(st.lists(st.tuples(st.integers(0, 3), st.sampled_from(SUBTYPES), st.sampled_from(["qn", "qn", "str", "lit", "uri"])), max_size=3))
     ops = list(r["ops"])
     for sel, sub, how in extra:
         if how == "qn":
@@ -83,6 +83,22 @@ def matrix(tier):
                                                       [[gen.prov_name("type"), val], [gen.prov_name("type"), {"k": "str", "v": "other"}]],
                                                       "new_record" if kind == "derivation" else "factory"]],
                            "opts": {"force_types": ft, "binary": False}, "cell": ["subtype", sub, how, kind]}
+
+
+    # two PROV subtypes of the record's own base class on ONE record: only one may be folded into the element name
+    pairs = [("agent", "Person", "SoftwareAgent"), ("agent", "Organization", "Person"), ("entity", "Plan", "Collection"),
+             ("entity", "Collection", "EmptyCollection"), ("entity", "Bundle", "Plan"),
+             ("derivation", "Revision", "Quotation"), ("derivation", "PrimarySource", "Revision")]
+    from .. import spec as _spec
+    for kind, s1, s2 in pairs:
+        formal = {}
+        for j, (arg, typ) in enumerate(_spec.formal_args(kind)[:_spec.mandatory(kind)]):
+            formal[arg] = {"name": mx._n("arg%d" % j)}
+        vals = [[gen.prov_name("type"), {"k": "qn", "ns": "http://www.w3.org/ns/prov#", "local": x, "prefix": "prov"}] for x in (s1, s2)]
+        for ft in (False, True):
+            yield {"profile": "xml", "ops": [["ns", 0, "ex", mx.EX], ["rec", 0, kind, mx._n("r1", "str"), formal, vals,
+                                                                     "new_record" if kind == "derivation" else "factory"]],
+                   "opts": {"force_types": ft, "binary": False}, "cell": ["two_subtypes", kind, s1, s2]}
 
 
 def roundtrip(d, opts):
